@@ -1,1 +1,337 @@
-fn main() {}
+//! fftmon - runtime monitor for the FFT polynomial multiplication (C04).
+//!
+//! Oracle: exact integer convolution (schoolbook; two-prime NTT + CRT for long operands, self-checked at start-up).
+//! Envelope: an input is judged only if BOTH max(A,B)^2*min(la,lb) <= 1e12 (f64; 1e3 for f32) AND
+//! max(la,lb) <= CORRECT_F{64,32}_BOUNDS[cell(A)][cell(B)], the table being read from rlib_fft::precision at run time.
+//!
+//!   --mode all (default) | pairs40 | pow2_edges | pattern | corners | history_twin | into | fft_roundtrip | empty
+//!   --tier quick|thorough   --light (dev profile: short vectors only)   --prec f64|f32|both
+//! Replay: --mode <m> --case <prec>:<index>:<seed>   (a case is a pure function of these)
+
+mod core;
+mod envelope;
+mod oracle;
+mod work_hist;
+mod work_mul;
+
+use crate::core::{Cx, MonF};
+use common::{catch, mix, Engine, Json, Report, WorkQueue};
+use envelope::*;
+
+#[derive(Clone, Copy, PartialEq, Debug)]
+enum W {
+    Pairs40,
+    Edges,
+    Pattern,
+    Corners,
+    History,
+    Into,
+    Roundtrip,
+    Empty,
+    Literal,
+}
+
+const ALL: [W; 8] = [W::Pairs40, W::Edges, W::Pattern, W::Corners, W::History, W::Into, W::Roundtrip, W::Empty];
+
+impl W {
+    fn mode(self) -> &'static str {
+        match self {
+            W::Pairs40 => "pairs40",
+            W::Edges => "pow2_edges",
+            W::Pattern => "pattern",
+            W::Corners => "corners",
+            W::History => "history_twin",
+            W::Into => "into",
+            W::Roundtrip => "fft_roundtrip",
+            W::Empty => "empty",
+            W::Literal => "literal",
+        }
+    }
+    /// name used in signatures
+    fn workload(self) -> &'static str {
+        match self {
+            W::Corners => "pattern",
+            W::Literal => "fft_roundtrip",
+            w => w.mode(),
+        }
+    }
+    fn parse(s: &str) -> Option<W> {
+        ALL.iter().cloned().chain([W::Literal]).find(|w| w.mode() == s)
+    }
+}
+
+#[derive(Clone, Copy)]
+struct Task {
+    w: W,
+    prec: Prec,
+    idx: u64,
+    cost: u64,
+}
+
+fn run_body<F: MonF>(w: W, cx: &mut Cx, idx: u64, seed: u64) {
+    match w {
+        W::Pairs40 => work_mul::pairs40::<F>(cx, idx, seed),
+        W::Edges => work_mul::edges::<F>(cx, idx, seed),
+        W::Pattern => work_mul::pattern::<F>(cx, idx, seed),
+        W::Corners => work_mul::corners::<F>(cx, idx, seed),
+        W::Empty => work_mul::empty::<F>(cx, idx, seed),
+        W::History => work_hist::history_case::<F>(cx, idx, seed),
+        W::Into => work_hist::into_case::<F>(cx, idx, seed),
+        W::Roundtrip => work_hist::roundtrip_case::<F>(cx, idx, seed),
+        W::Literal => work_hist::literal_case::<F>(cx, idx),
+    }
+}
+
+fn run_case(w: W, prec: Prec, idx: u64, seed: u64, rep: &mut Report, verbose: bool) {
+    let replay = vec!["--mode".to_string(), w.mode().to_string(), "--case".to_string(), format!("{}:{}:{}", prec.name(), idx, seed)];
+    let mut cx = Cx { rep, prec, workload: w.workload(), replay, verbose, cur_fn: "", history: Vec::new() };
+    cx.rep.inc("cases");
+    cx.rep.inc(&format!("cases_{}", w.mode()));
+    let r = catch(|| match prec {
+        Prec::F64 => run_body::<f64>(w, &mut cx, idx, seed),
+        Prec::F32 => run_body::<f32>(w, &mut cx, idx, seed),
+    });
+    if let Err(p) = r {
+        if p.in_lib {
+            let f = if cx.cur_fn.is_empty() { "unknown" } else { cx.cur_fn };
+            let d = Json::obj()
+                .set("what", "the library panicked on a lawful input inside the envelope")
+                .set("function", f)
+                .set("panic", p.msg.as_str())
+                .set("at", format!("{}:{}", p.file, p.line))
+                .set("case", format!("{} {}:{}:{}", w.mode(), prec.name(), idx, seed));
+            cx.violation(format!("panic:{}", f), d);
+        } else {
+            cx.rep.inconclusive(format!("harness panic at {}:{}: {} (case {} {}:{}:{})", p.file, p.line, p.msg, w.mode(), prec.name(), idx, seed));
+        }
+    }
+}
+
+#[derive(Clone, Copy)]
+struct Tier {
+    thorough: bool,
+    light: bool,
+}
+
+fn plan(w: W, prec: Prec, t: Tier, seed: u64) -> Vec<Task> {
+    let mut v = Vec::new();
+    let mut push = |idx: u64, cost: u64| v.push(Task { w, prec, idx, cost });
+    let pick = |light: u64, quick: u64, thorough: u64| if t.light { light } else if t.thorough { thorough } else { quick };
+    match w {
+        W::Pairs40 => {
+            for idx in 0..work_mul::pairs40_total() {
+                push(idx, 1);
+            }
+        }
+        W::Edges => {
+            let kmax = pick(10, 14, work_mul::EDGE_KMAX) as u32;
+            for k in 1..=kmax {
+                let reps = if !t.thorough {
+                    2
+                } else if k <= 16 {
+                    4
+                } else {
+                    2
+                };
+                for shape in 0..work_mul::EDGE_SHAPES {
+                    for rep in 0..reps {
+                        push(work_mul::edges_encode(k, shape, rep), 1u64 << k);
+                    }
+                }
+            }
+        }
+        W::Pattern => {
+            let n = pick(1500, 4000, 40_000);
+            for idx in 0..n {
+                let class = idx % 16;
+                let keep = match class {
+                    14 => t.thorough && !t.light,
+                    15 => t.thorough && !t.light && (idx / 16) % 8 == 0,
+                    _ => true,
+                };
+                if keep {
+                    push(idx, work_mul::PATTERN_CLASS_LMAX[class as usize] as u64);
+                }
+            }
+        }
+        W::Corners => {
+            let classes: &[u64] = if t.light {
+                &[0]
+            } else if t.thorough {
+                &[1, 2]
+            } else {
+                &[1]
+            };
+            for &cc in classes {
+                for cellpair in 0..work_mul::corner_cells() {
+                    let g = grid().len() as u64;
+                    let (ca, cb) = ((cellpair / g) as usize, (cellpair % g) as usize);
+                    let h = mix(&[seed, 0xC0C, prec.id(), cellpair]);
+                    for orient in 0..2u64 {
+                        let (la, lb, _) = match work_mul::corner_lengths(prec, cc as usize, ca, cb, orient) {
+                            Some(x) => x,
+                            None => continue,
+                        };
+                        let npc = work_mul::CORNER_PATS.len() as u64;
+                        for patv in 0..npc {
+                            if cc == 2 {
+                                // only the cells the smaller cap truncates; one pattern and one orientation each
+                                if !(prec.table()[ca][cb] > work_mul::CORNER_CAPS[1] as f64) || patv != h % npc || orient != (h / 8) % 2 {
+                                    continue;
+                                }
+                            }
+                            if t.light && patv >= 4 {
+                                continue;
+                            }
+                            push(work_mul::corner_encode(cc, cellpair, orient, patv), la.max(lb) as u64);
+                        }
+                    }
+                }
+            }
+        }
+        W::History => {
+            let n = pick(300, 1500, 12_000);
+            for idx in 0..n {
+                let class = idx % 8;
+                if class == 7 && !(t.thorough && !t.light && (idx / 8) % 16 == 0) {
+                    continue;
+                }
+                push(idx, work_hist::HIST_CLASS_LMAX[class as usize] as u64 * 4);
+            }
+        }
+        W::Into => {
+            let n = pick(300, 1500, 10_000);
+            for idx in 0..n {
+                if t.light && idx % 10 == 9 {
+                    continue;
+                }
+                push(idx, 300);
+            }
+        }
+        W::Roundtrip => {
+            let n = pick(300, 1500, 10_000);
+            for idx in 0..n {
+                if t.light && idx % 8 >= 6 {
+                    continue;
+                }
+                push(idx, if idx % 8 == 7 { 30_000 } else { 300 });
+            }
+        }
+        W::Literal => {
+            for idx in 0..3 {
+                push(idx, u64::MAX);
+            }
+        }
+        W::Empty => {
+            let n = pick(200, 600, 4000);
+            for idx in 0..n {
+                let class = idx % 8;
+                let keep = match class {
+                    0..=3 => true,
+                    4 | 5 => !t.light,
+                    6 => t.thorough && !t.light,
+                    _ => t.thorough && !t.light && (idx / 8) % 8 == 0,
+                };
+                if keep {
+                    push(idx, work_mul::EMPTY_CLASS_LMAX[class as usize] as u64);
+                }
+            }
+        }
+    }
+    v
+}
+
+fn main() {
+    let eng = Engine::start("fftmon");
+    let a = &eng.args;
+    let mode = a.str("mode", "all");
+    let tier = Tier { thorough: a.thorough(), light: a.flag("light") };
+    let seed = a.seed();
+    let verbose = a.flag("verbose");
+    let mut report = Report::new();
+    report.extra("mode", mode.as_str());
+    report.extra("tier", if tier.thorough { "thorough" } else { "quick" });
+    report.extra("light", tier.light);
+    report.extra("envelope", envelope_text());
+    report.extra(
+        "nontrivial_rule",
+        "la >= 2 and lb >= 2, both operands non-zero, max coefficient magnitude >= 2; hash of (precision, a, b)",
+    );
+    // the unbalanced input measured in the design phase (a = [1e6], b = 1e5 coefficients of 1e6) must be outside
+    report.extra("design_counterexample_1x100000_at_1e6_is_inside", inside(Prec::F64, 1, 100_000, 1_000_000, 1_000_000));
+
+    // harness self-check first
+    match oracle::self_check(seed) {
+        Ok(n) => report.extra("oracle_self_check_cases", n),
+        Err(e) => {
+            report.inconclusive(e);
+            eng.finish(report);
+        }
+    }
+
+    if let Some(c) = a.opt("case") {
+        let w = W::parse(&mode).unwrap_or_else(|| panic!("--case needs --mode <workload>, got {}", mode));
+        let parts: Vec<&str> = c.split(':').collect();
+        assert!(parts.len() == 3, "--case <prec>:<index>:<seed>");
+        let prec = Prec::parse(parts[0]);
+        let idx: u64 = parts[1].parse().expect("case index");
+        let cseed: u64 = parts[2].parse().expect("case seed");
+        eprintln!("[fftmon] replay {} {}:{}:{}", w.mode(), prec.name(), idx, cseed);
+        let rep = common::run_big_stack(move || {
+            let mut rep = Report::new();
+            rep.sample_cap = 4;
+            run_case(w, prec, idx, cseed, &mut rep, true);
+            rep
+        });
+        report.merge(rep);
+        eng.finish(report);
+    }
+
+    let ws: Vec<W> = if mode == "all" { ALL.to_vec() } else { vec![W::parse(&mode).unwrap_or_else(|| panic!("unknown mode {}", mode))] };
+    let precs: Vec<Prec> = match a.str("prec", "both").as_str() {
+        "both" => vec![Prec::F64, Prec::F32],
+        s => vec![Prec::parse(s)],
+    };
+    let mut tasks: Vec<Task> = Vec::new();
+    if mode == "all" {
+        // literal cases first and on this thread, so that the smallest witness of a signature is the one kept
+        for &p in &precs {
+            for t in plan(W::Literal, p, tier, seed) {
+                let mut rep = Report::new();
+                run_case(t.w, t.prec, t.idx, seed, &mut rep, verbose);
+                report.merge(rep);
+            }
+        }
+    }
+    for &w in &ws {
+        for &p in &precs {
+            tasks.extend(plan(w, p, tier, seed));
+        }
+    }
+    // largest first, so that the few long cases do not form the tail of the run
+    tasks.sort_by(|x, y| y.cost.cmp(&x.cost));
+    let q = WorkQueue::new(tasks.len() as u64);
+    let tasks = &tasks;
+    let rep = common::run_sharded(a.threads(), |_s, rep| {
+        rep.sample_cap = 1;
+        while let Some(i) = q.take() {
+            let t = tasks[i as usize];
+            run_case(t.w, t.prec, t.idx, seed, rep, verbose);
+        }
+    });
+    report.merge(rep);
+    // sampling over coefficient vectors everywhere; only the set of length pairs of pairs40 is complete
+    report.extra("exhaustive", false);
+    if ws.contains(&W::Pairs40) {
+        report.extra(
+            "pairs40_scope",
+            format!(
+                "complete over the {} length pairs 1..=40 x 1..=40: {} value variants each, both argument orders, f64 and f32 (values sampled)",
+                work_mul::P40_N * work_mul::P40_N,
+                work_mul::P40_VARIANTS.len()
+            ),
+        );
+    }
+    report.extra("planned_cases", tasks.len());
+    eng.finish(report);
+}
